@@ -15,7 +15,7 @@ QUICK = {
                 world=dict(pack_limit=3, pack_ratio=0.75)),
    }
 THOROUGH = {
-    "exhaustive": [("1sess-2mbox-4msgs-depth8", dict(depth=8, maxid=4, sess=("A",), mbox=("inbox", "b"), acts=ALL)),
+    "exhaustive": [("1sess-2mbox-4msgs-depth7", dict(depth=7, maxid=4, sess=("A",), mbox=("inbox", "b"), acts=ALL)),
                    ("2sess-1mbox-5msgs-depth7", dict(depth=7, maxid=5))],
     "simulate": [("2mbox", dict(mbox=("inbox", "b"), maxid=8, maxpend=8, sets="SetsMedium", acts=ALL), 800, 32)],
     "random": 800,
